@@ -22,7 +22,7 @@ Inductive gout :=
 
 Section Glue.
   Variable P : Type.                                            (* payload *)
-  Variable encode : enc -> P -> res (list packet * enc) + unit. (* inr tt: the encoder returned an error *)
+  Variable encode : enc -> P -> res (list packet * enc) + enc.  (* inr e': the encoder returned an error (its state is then e') *)
 
   Definition oversized (max : Z) (p : packet) : bool := blen p.(p_payload) >? max.
 
@@ -40,7 +40,7 @@ Section Glue.
         | None => GOk g in_pkts
         | Some e =>
             match encode e p with
-            | inr _ => GErr g
+            | inr e' => GErr (mkg (Some e') g.(g_off))
             | inl Panic => GPanic
             | inl (Ok (pkts, e')) => GOk (mkg (Some e') g.(g_off)) (stamp_all g.(g_off) pts pkts)
             end
@@ -71,5 +71,5 @@ Section Glue.
 End Glue.
 
 (* H.264 instance: the rtph264 encoder never returns an error *)
-Definition h264_enc_fn (e : enc) (au : list bytes) : res (list packet * enc) + unit := inl (h264_encode e au).
+Definition h264_enc_fn (e : enc) (au : list bytes) : res (list packet * enc) + enc := inl (h264_encode e au).
 Definition h264_glue_write := glue_write (list bytes) h264_enc_fn.
